@@ -23,7 +23,7 @@ func init() {
 		Doc: "NewSortValue follows the normalisation ladder in every abstract world — the ladder of SerializeKey (R-KEY-3) and CompareCombinedly (R-CMP-3): NULL, then value.ToIntegerStrictly, value.ToFloat, value.ToDatetime (with flags.DatetimeFormat and flags.GetTimeLocation()), value.ToBoolean, then *value.String, else NULL. " +
 			"The function is executed by abstract interpretation with the null-ness of the value, the success of each conversion and the *value.String test as world atoms (value.IsNull and type assertions on a conversion result answer by that atom; unexported functions and methods of lib/query are inlined, every other condition — a test on the bytes of the text, a flag — is an opaque atom answered both ways). " +
 			"Decided in every world: a conversion is left untried only when the value is NULL or an earlier rung succeeded (so no test on the content may route a value past a rung); the SortValue returned has the Type of the first successful rung; its fields are that rung's data: " +
-			"Integer/Float/String for an integer (raw integer, its float64, upper-cased trimmed text of value.ToString), Float/String for a float, Datetime = UnixNano of the datetime, Integer 1/0 for a boolean by its raw value, String = upper-cased trimmed raw text for a string, nothing else set; " +
+			"Integer/Float/String for an integer (raw integer, its float64, upper-cased trimmed text of value.ToString), Float/String for a float, Datetime = the raw time.Time of the datetime (the instant itself, not a number derived from it: R-SRT-8), Integer 1/0 for a boolean by its raw value, String = upper-cased trimmed raw text for a string, nothing else set; " +
 			"SerializeIdenticalKey fills SerializedKey exactly when flags.StrictEqual",
 		Controls: []string{"CtlSortValueTextFastPath"},
 		Run:      ruleSrt6})
@@ -52,7 +52,7 @@ var srt6Fields = map[string]map[string]string{
 	"NullType":     {},
 	"IntegerType":  {"Integer": srt6IntRaw, "Float": "conv(" + srt6IntRaw + ")", "String": srt6Text},
 	"FloatType":    {"Float": "value.(Float).Raw(float(val))", "String": srt6Text},
-	"DatetimeType": {"Datetime": "(time.Time).UnixNano(value.(Datetime).Raw(datetime(val)))"},
+	"DatetimeType": {"Datetime": "value.(Datetime).Raw(datetime(val))"},
 	"BooleanType":  {"Integer": "<1 if value.(Boolean).Raw(boolean(val)) else 0>"},
 	"StringType":   {"String": srt6RawText},
 }
